@@ -412,6 +412,9 @@ func addRefPkgs(ov map[string]string, refs map[string]string, repo string) {
 		if strings.HasPrefix(rd, "$GOROOT") {
 			rd = strings.Replace(rd, "$GOROOT", goroot(), 1)
 		}
+		if strings.HasPrefix(rd, "$VERIF") {
+			rd = strings.Replace(rd, "$VERIF", verifRoot, 1)
+		}
 		ents, err := os.ReadDir(rd)
 		if err != nil {
 			continue
